@@ -305,7 +305,7 @@ func C04Gen(r *Run) {
 	// (a) a restart at every position of generated histories
 	nh, lh := 8, 5
 	if r.Tier == "thorough" {
-		nh, lh = 70, 9
+		nh, lh = 40, 8
 	}
 	hists := [][]map[string]interface{}{}
 	for i, d := range c04Directed() {
@@ -358,7 +358,7 @@ func C04Gen(r *Run) {
 	// (b) fault enumeration: every call kind on a set of states, every cut
 	ns := 1
 	if r.Tier == "thorough" {
-		ns = 12
+		ns = 5
 	}
 	states := [][]map[string]interface{}{}
 	for i, d := range c04Directed() {
